@@ -35,6 +35,9 @@ CHECKS['C11'] = dict(cat='model_checking', tech='TLA+ pool model: TLC exhaustive
 CHECKS['C12'] = dict(cat='model_checking', tech='TLA+ walk machine: TLC over all link configurations + every configuration replayed into all five walkers',
    text="spec/ExtChain.tla is the single walk machine behind write_internal / next_header / set_next_headers / header_len / from_slice. TLC enumerates every configuration (six slots absent or linking to a value of {0,60,43,44,51,17}, every first header; quick: at most 3 headers present, thorough: all 619 458) and checks Total, NoSilentDrop, SetThenWalk (RFC 8200 order), DecodeInverse. Every configuration is then executed on the real Ipv6Extensions, IpHeaders, NetHeaders and Ipv4Extensions; Trace_ExtChain compares verdicts, error kinds, written bytes (independent wire walk), announced lengths, the re-decoded struct and the returned ether types with the model, and write-iff-walk pairwise.",
    note="Extension payload contents are out of scope here (C08). Values outside the link alphabet are only sampled (seeded).")
+CHECKS['C13'] = dict(cat='model_checking', tech='TLA+ option iterator/encoder machines: TLC over token sequences and element lists + per next() trace validation',
+   text="spec/TcpOpts.tla holds the option iterator as a machine (NextOpt: item / end / set of admissible errors, dead afterwards) and the encoder (Required, Encode with END padding). TLC checks Tiling, Bounded, StaysDead on every truncation of every sequence of up to 2 (thorough: 3) tokens (all six kinds, the four SACK sizes, END, malformed size bytes, unknown kinds) and Fits on all element lists up to 3 (4) elements plus lists crossing 40 bytes by every margin. Every case and seeded random areas/lists are executed on TcpOptionsIterator (each next() call and rest() logged), TcpHeaderSlice::options_iterator, TcpOptions::try_from_elements / try_from_slice and TcpHeader::set_options; Trace_TcpOpts steps the machine along the recorded calls.",
+   note="Option payload bytes are patterns (they do not influence control flow). Non-canonical SACK elements (a block behind a None slot) are outside the element domain.")
 PENDING = {
 }
 NA = []
